@@ -46,7 +46,9 @@ def pool():
 POOL = pool()
 CELLS = [("Server", "x86_64"), ("Server", "i386"), ("Client", "x86_64"), ("Client", "i386")]
 HEADERS = [None, "1.0", "1.1", "1.2", "2.0"]
-OPS = [["add", v, a, i] for i in range(len(POOL)) for v, a in CELLS] + [["dumps"], ["reload"]]
+OPS = ([["add", v, a, i] for i in range(len(POOL)) for v, a in CELLS] + [["dumps"], ["reload"]] +
+       [["setver", "1.1"], ["setver", "1.0"]] +                        # header.version assigned by the caller
+       [["loaddoc", v, a, i] for i in (0, 2, 11, 13) for v, a in CELLS[:2]])     # a one-image 1.2 document loaded INTO the live manifest
 CURRENT = (1, 2)
 
 
@@ -84,6 +86,13 @@ def m_step(state, op):
         if version >= (1, 1) and m_collides(placed, i):
             return state, "ValueError"
         return (version, placed | {(v, a, i)}, scope and version >= (1, 1)), "ok"
+    if op[0] == "setver":
+        return (vt(op[1]), placed, scope), "ok"
+    if op[0] == "loaddoc":
+        _, v, a, i = op
+        if m_collides(placed, i):
+            return (CURRENT, placed, scope), "reject"        # (the header of the document has been read before the image is refused)
+        return (CURRENT, placed | {(v, a, i)}, scope), "ok"
     if op[0] == "dumps":
         return (CURRENT, placed, scope), "ok"
     if op[0] == "reload":
@@ -109,8 +118,9 @@ def observe(im):
     return placed, cells
 
 
-def run_history(header, hist):
-    """Replays hist on a fresh object in lockstep with the model; returns a list of problems (first divergence)."""
+def run_history(header, hist, verify_from=0):
+    """Replays hist on a fresh object in lockstep with the model; returns a list of problems (first divergence).
+    Steps before `verify_from` are executed but not compared again (they were compared when that prefix was explored)."""
     import productmd.images as pi
     other = pi.Images()                           # an unrelated manifest filled first: nothing of it may influence `im`
     other.header.version = "1.2"
@@ -124,11 +134,19 @@ def run_history(header, hist):
     state = m_init(header)
     notes = []
     for n, op in enumerate(hist):
-        before = observe(im)
+        check = n >= verify_from
+        before = observe(im) if check else None
         state2, want = m_step(state, op)
         if op[0] == "add":
             r = call(im.add, op[1], op[2], objs[op[3]])
             got = "ok" if r[0] == "ok" else r[1]
+        elif op[0] == "setver":
+            im.header.version = op[1]
+            got = "ok"
+        elif op[0] == "loaddoc":
+            doc = doc_of([(op[1], op[2], op[3])])
+            r = call(im.loads, json.dumps(doc))
+            got = "ok" if r[0] == "ok" else "reject"
         elif op[0] == "dumps":
             r = call(im.dumps)
             got = "ok" if r[0] == "ok" else r[1]
@@ -145,10 +163,14 @@ def run_history(header, hist):
                     objs = [B.mk_image(im, s) for s in POOL]
                 else:
                     got = "reject"
+        if not check:
+            state = state2
+            notes.append(got)
+            continue
         after = observe(im)
         if got != want:
             return state2, ["step %d %s: library %s, model %s" % (n, op, got, want)], notes
-        if want != "ok" and op[0] == "add" and after != before:
+        if want != "ok" and op[0] in ("add", "loaddoc") and after != before:
             return state2, ["step %d %s: refused add changed the manifest: %s -> %s" % (n, op, sorted(before[0]), sorted(after[0]))], notes
         if after[0] != set(state2[1]):
             return state2, ["step %d %s: manifest holds %s, model %s" % (n, op, sorted(after[0]), sorted(state2[1]))], notes
@@ -189,7 +211,8 @@ def eval_doc(placed, version):
 
 
 IDENT_EXTRA = [dict(POOL[0], subvariant=""), dict(POOL[0], disc_number=0), dict(POOL[0], subvariant="", disc_number=0, arch="src"),
-               dict(POOL[8], subvariant="")]
+               dict(POOL[8], subvariant=""),
+               dict(POOL[0], additional_variants=["Client"])]       # not unified: an invalid object, must be refused, not written
 
 
 def eval_doc_same_path(first, second, version):
@@ -207,7 +230,9 @@ def eval_identify(i, drop):
     im = pi.Images()
     img = B.mk_image(im, (POOL + IDENT_EXTRA)[i])
     lst = []
-    img.serialize(lst)
+    r = call(img.serialize, lst)
+    if r[0] != "ok":
+        return {"object": "refused", "dict": "refused"} if r[1] in ("ValueError", "TypeError") else {"object": r, "dict": None}
     d = dict(lst[0])
     if drop:
         d.pop("unified", None)
@@ -223,7 +248,7 @@ def depth(tier):
     return 3 if tier == "quick" else 4
 
 
-def source_states(header, d):
+def source_states(header, d, ops=None):
     """Distinct model states reachable in < d steps, each with one (shortest) history."""
     start = m_init(header)
     seen = {start: []}
@@ -231,7 +256,7 @@ def source_states(header, d):
     for _ in range(d - 1):
         nxt = []
         for s in level:
-            for op in OPS:
+            for op in (ops or OPS):
                 s2, _ = m_step(s, op)
                 if s2 not in seen:
                     seen[s2] = seen[s] + [op]
@@ -240,15 +265,22 @@ def source_states(header, d):
     return seen
 
 
+def ops_for(tier):
+    if tier == "thorough":
+        return OPS
+    quick_cells = CELLS[:3]                              # the quick tier uses 3 of the 4 cells
+    return [op for op in OPS if op[0] not in ("add", "loaddoc") or (op[1], op[2]) in quick_cells]
+
+
 def units(tier, seed):
     us = [("identify",)]
     d = depth(tier)
     for h in HEADERS:
-        hists = list(source_states(h, d).values())
+        hists = list(source_states(h, d, ops_for(tier)).values())
         hists = hists[seed % len(hists):] + hists[:seed % len(hists)]
         chunk = 40 if tier == "quick" else 120
         for i in range(0, len(hists), chunk):
-            us.append(("hist", h, hists[i:i + chunk]))
+            us.append(("hist", h, hists[i:i + chunk], tier))
     return us
 
 
@@ -270,19 +302,22 @@ def run_unit(unit, acc):
                     continue
                 o = eval_identify(i, drop)
                 acc.ev()
+                if o["object"] == "refused":
+                    acc.outcome("identify:invalid-object-refused")
+                    continue
                 if o["object"] != o["dict"] or o["object"][0][0] == "exc":
                     acc.violation("identify", {"kind": "identify", "i": i, "drop": drop}, o,
                                   "identify_image(object) %s != identify_image(serialised dict) %s" % (o["object"], o["dict"]))
                 else:
                     acc.outcome("identify:agree")
         return
-    _, header, hists = unit
+    _, header, hists, tier = unit
     for hist in hists:
         src, problems, _ = run_history(header, hist)
         acc.state((header, src))
-        for op in OPS:
+        for op in ops_for(tier):
             full = hist + [op]
-            state, problems, notes = run_history(header, full)
+            state, problems, notes = run_history(header, full, verify_from=len(hist))
             acc.trans()
             acc.trace()
             acc.ev()
@@ -303,6 +338,8 @@ def run_unit(unit, acc):
                         acc.outcome("add:accepted-equal-checksums")
             elif op[0] == "reload":
                 acc.outcome("reload:rejected" if pre[1] == "reject" else "reload:ok")
+            elif op[0] == "loaddoc":
+                acc.outcome("loaddoc:rejected" if pre[1] == "reject" else "loaddoc:ok")
             if len(full) >= 2:
                 acc.nontriv((header, state))
         # documents: the same placements written as a file and re-headed
@@ -320,7 +357,7 @@ def run_unit(unit, acc):
                 elif coll:
                     acc.outcome("doc:accepted-1.0" if ver == "1.0" else "doc:rejected")
         if len(hist) == 2:
-            acc.sample({"header": header, "history": hist + [OPS[8]]}, limit=2)
+            acc.sample({"header": header, "history": hist + [["add", "Server", "x86_64", 2]]}, limit=2)
 
 
 def replay(case):
@@ -338,9 +375,9 @@ KNOWN = {}
 
 def describe(tier):
     return {
-        "rule": "operations: add(cell, image) for 4 cells (2 variants x 2 arches) x 14 pool images (A; same identity+same "
+        "rule": "operations: add(cell, image) for 4 cells (2 variants x 2 arches; the quick tier uses 3 of them) x 14 pool images (A; same identity+same "
                 "checksums; same identity+different checksums; same identity+superset of A's checksum types; 7 images differing from A in exactly one identity attribute; "
-                "unified images with equal / different / differently ordered additional_variants), dumps(), reload (write+read into a fresh object); "
+                "unified images with equal / different / differently ordered additional_variants), dumps(), reload (write+read into a fresh object), header.version assigned directly (1.0 / 1.1), one-image 1.2 documents loaded INTO the live manifest; "
                 "initial header in {default 0.0, 1.0, 1.1, 1.2, 2.0}.  All histories up to the depth, deduplicated on the model "
                 "state; lockstep model: refuse iff version >= 1.1 and an equal-identity image with different checksums is filed "
                 "anywhere; refusal = ValueError and unchanged manifest incl. cells; every source state with placements is also "
